@@ -511,3 +511,44 @@ def replay_h_path_string_sequence(i0, i1, i2):
     if got != [str(v) for v in vals]:
         return True, "path_string over %r (in this order) gives %r" % (vals, got)
     return False, "each value has its own label"
+
+
+def h_readonly_leaves_statistics(n0: int, n1: int, n2: int, lo: int) -> bool:
+    """
+    pre: 1 <= n0 <= 1000 and 1 <= n1 <= 1000 and 1 <= n2 <= 1000 and 0 <= lo <= 40
+    post: __return__
+    """
+    # read-only questions put to a shared handle - which columns are sorted across the row groups that a filter keeps -
+    # leave what the handle reports about itself (its per-row-group statistics) as it was
+    from fastparquet import api as api_mod
+    rows, maxes = [n0, n1, n2], [10, 20, 30]
+    pf = _stat_handle(rows, maxes)
+    before = {k: {c: [int(x) for x in v] for c, v in d.items()} for k, d in pf.statistics.items() if k in ("max", "min")}
+    out = api_mod.sorted_partitioned_columns(pf, filters=[("a", ">", lo)])
+    after = {k: {c: [int(x) for x in v] for c, v in d.items()} for k, d in pf.statistics.items() if k in ("max", "min")}
+    kept = [m for m in maxes if m > lo]
+    ok = after == before and after["max"]["a"] == maxes
+    if len(kept) >= 1:
+        ok = ok and [int(x) for x in out.get("a", {}).get("max", [])] == kept
+    return ok
+
+
+def replay_h_readonly_leaves_statistics(n0, n1, n2, lo):
+    import shutil, tempfile
+    import pandas as pd
+    import fastparquet
+    from fastparquet import api as api_mod
+    d = tempfile.mkdtemp(prefix="c20-")
+    try:
+        fn = os.path.join(d, "t.parq")
+        fastparquet.write(fn, pd.DataFrame({"a": [6, 10, 16, 20, 26, 30]}), row_group_offsets=[0, 2, 4], stats=True)
+        pf = fastparquet.ParquetFile(fn)
+        before = [int(x) for x in pf.statistics["max"]["a"]]
+        api_mod.sorted_partitioned_columns(pf, filters=[("a", ">", lo)])
+        after = [int(x) for x in pf.statistics["max"]["a"]]
+        if after != before:
+            return True, "after sorted_partitioned_columns(pf, filters=[('a','>',%d)]) the handle's statistics report " \
+                         "max(a) = %r for its 3 row groups (before: %r)" % (lo, after, before)
+        return False, "statistics untouched"
+    finally:
+        shutil.rmtree(d, ignore_errors=True)
